@@ -1,6 +1,7 @@
 package main
 
 import (
+	"math"
 	"fmt"
 	"strings"
 )
@@ -17,8 +18,69 @@ func init() {
 		streamHistories(c, HistCfg{Ops: 40, QueriesPer: 1, Indexes: true, Dumps: true, Malformed: true, ManyColls: true}, "catalog: create/drop/list over prefix-related and unicode collection names sharing ids")
 	}
 	streams["C14"] = func(c *Ctx) {
+		if !indexCatalogSequences(c) {
+			return
+		}
 		streamHistories(c, HistCfg{Ops: 40, QueriesPer: 2, Indexes: true, Dumps: true, IndexHeavy: true}, "index catalog: create/drop of indexes on prefix pairs (x, xy) and dotted paths (n, n.a) interleaved with writes")
 	}
+}
+
+// indexCatalogSequences: the catalog as a data structure. 3-5 indexes created in every order of a small
+// field set, then each position dropped in turn (and some re-created); after every step HasIndex of every
+// field, ListIndexes, a query and a sort through each surviving index, and the raw dump.
+func indexCatalogSequences(c *Ctx) bool {
+	dr := StartDriver(c.DriverBin)
+	defer dr.Close()
+	fields := []string{"x", "xy", "y", "n.a", "n"}
+	for _, be := range backendsAll {
+		im := NewImpl(be, c.Scratch)
+		g := NewGen(c.Rng, Domain{IntsWithin2p53: true, NoNegTimes: true})
+		rounds := c.N(12, 120)
+		for r := 0; r < rounds; r++ {
+			h := NewHistGen(g, 1, 1)
+			perm := g.R.Perm(len(fields))
+			k := 3 + g.pick(3)
+			lines := []J{opLine("createCollection", J{"coll": hx("ic")})}
+			docs := []interface{}{}
+			for j := 0; j < 6; j++ {
+				docs = append(docs, encDoc(h.Doc(h.newId())))
+			}
+			lines = append(lines, opLine("insert", J{"coll": hx("ic"), "docs": docs}))
+			probe := func() {
+				lines = append(lines, opLine("listIndexes", J{"coll": hx("ic")}))
+				for _, f := range fields {
+					lines = append(lines, opLine("hasIndex", J{"coll": hx("ic"), "field": hx(f)}),
+						opLine("findAll", J{"q": J{"coll": hx("ic"), "sort": []interface{}{[]interface{}{hx(f), 1}}}}),
+						opLine("count", J{"q": J{"coll": hx("ic"), "crit": J{"cmp": []interface{}{"ge", hx(f), J{"lit": encValue(int64(0))}}}}}))
+				}
+				lines = append(lines, J{"k": "dump"})
+			}
+			for i := 0; i < k; i++ {
+				lines = append(lines, opLine("createIndex", J{"coll": hx("ic"), "field": hx(fields[perm[i]])}))
+			}
+			probe()
+			order := g.R.Perm(k)
+			for _, pos := range order {
+				lines = append(lines, opLine("dropIndex", J{"coll": hx("ic"), "field": hx(fields[perm[pos]])}))
+				probe()
+				if g.pick(3) == 0 {
+					f := fields[perm[g.pick(k)]]
+					lines = append(lines, opLine("createIndex", J{"coll": hx("ic"), "field": hx(f)}), opLine("createIndex", J{"coll": hx("ic"), "field": hx(f)}))
+					probe()
+				}
+			}
+			o := runHistory(dr, im, lines, HistOpts{})
+			recordHistory(c, lines, &o, be)
+			c.Count("catalog-sequence")
+			if o.Index >= 0 {
+				reportHistoryProblem(c, dr, im, lines, &o, be, HistOpts{}, "catalog-sequence")
+				im.Destroy()
+				return false
+			}
+		}
+		im.Destroy()
+	}
+	return true
 }
 
 // ---- C02: twin collections differing only in their indexes ----
@@ -442,16 +504,16 @@ func streamC08(c *Ctx) {
 				if g.pick(2) == 0 {
 					q["crit"] = h.Crit(g.pick(3))
 				}
-				dirs := []int{1, -1, 0, 5, -3}
+				dirs := []int{1, -1, 0, 5, -3, math.MinInt64, math.MaxInt64, 1 << 62, -(1 << 62)}
 				fs := []string{"x", "y", "n.a", "xy", "_id", "z", "x", "y"}
 				switch g.pick(8) {
 				case 0:
 					q["sortDefault"] = true
 				case 1, 2:
-					q["sort"] = []interface{}{[]interface{}{hx(fs[g.pick(len(fs))]), dirs[g.pick(5)]}, []interface{}{hx(fs[g.pick(len(fs))]), dirs[g.pick(5)]}}
+					q["sort"] = []interface{}{[]interface{}{hx(fs[g.pick(len(fs))]), dirs[g.pick(len(dirs))]}, []interface{}{hx(fs[g.pick(len(fs))]), dirs[g.pick(len(dirs))]}}
 				case 3:
 				default:
-					q["sort"] = []interface{}{[]interface{}{hx(fs[g.pick(len(fs))]), dirs[g.pick(5)]}}
+					q["sort"] = []interface{}{[]interface{}{hx(fs[g.pick(len(fs))]), dirs[g.pick(len(dirs))]}}
 				}
 				skips := []int{0, 0, 1, 2, n / 2, n, n + 3, -1}
 				limits := []int{-1, -1, 0, 1, 2, n / 2, n, n + 3, -5}
@@ -514,6 +576,16 @@ func streamC09(c *Ctx) {
 				}
 				coll := h.coll()
 				q := h.Query(coll)
+				if g.pick(5) == 0 {
+					// point-lookup shapes: a single comparison on _id (or on a field holding ids) with a stored id,
+					// an absent id, or a field reference in either spelling - alone or And-ed, any window
+					ops := []interface{}{J{"lit": encValue("$y")}, J{"ref": hx("y")}, J{"lit": encValue(h.someId())}, J{"lit": encValue("$_id")}}
+					leaf := J{"cmp": []interface{}{[]string{"eq", "eq", "eq", "ge", "le"}[g.pick(5)], hx([]string{"_id", "_id", "y"}[g.pick(3)]), ops[g.pick(len(ops))]}}
+					if g.pick(4) == 0 {
+						leaf = J{"and": []interface{}{leaf, h.Leaf()}}
+					}
+					q["crit"] = leaf
+				}
 				grp++
 				for _, name := range []string{"findAll", "count", "exists", "findFirst", "forEach", "forEach"} {
 					l := opLine(name, J{"q": q, "grp": grp})
